@@ -243,7 +243,7 @@ def strat_terminal(tier):
 
 
 PARTS = [
-    Part("orders", run, strategy, {"quick": 256, "thorough": 2560}, rule=RULE),
-    Part("fork-join-orders", run, strat_directed, {"quick": 160, "thorough": 1600}, rule="directed fork-join definitions (branches that arrive conditionally or never) under all completion orders"),
-    Part("terminal-orders", run, strat_terminal, {"quick": 200, "thorough": 2000}, rule="directed: parallel chains with and without publishes ending as leaves, run-time dead ends, noop or in a join; all completion orders"),
+    Part("orders", run, strategy, {"quick": 256, "thorough": 1280}, rule=RULE),
+    Part("fork-join-orders", run, strat_directed, {"quick": 160, "thorough": 800}, rule="directed fork-join definitions (branches that arrive conditionally or never) under all completion orders"),
+    Part("terminal-orders", run, strat_terminal, {"quick": 200, "thorough": 1000}, rule="directed: parallel chains with and without publishes ending as leaves, run-time dead ends, noop or in a join; all completion orders"),
 ]
